@@ -61,6 +61,12 @@ def cases():
         out.append({"id": f"defined/in_body/def_first_last/{where}", "feature": "ref_in_body_def_first_last", "expect": "equiv_or_error", "name": "@inner", "pattern": pat, "inlined": inl, "macros": [OTHER, inner, body_outer], "where": where})
         out.append({"id": f"undefined/in_body/{where}", "feature": "undef_in_body", "expect": "error", "name": "@inner", "pattern": pat, "macros": [body_outer, OTHER], "where": where})
         out.append({"id": f"undefined/in_body_last/{where}", "feature": "undef_in_body_last", "expect": "error", "name": "@inner", "pattern": pat, "macros": [OTHER, body_outer], "where": where})
+    # a three-level chain whose middle macro is listed before its user and refers to a macro listed last
+    chain = [{"name": "@mid", "pattern": [{"xor": ["@leaf", "@leaf"]}]}, {"name": "@top", "pattern": [{"$and": ["push", "@mid"]}]}, {"name": "@leaf", "pattern": "a"}]
+    for where in ("file", "extra"):
+        out.append({"id": f"defined/chain3/mid_first/{where}", "feature": "ref_chain3", "expect": "equiv_or_error", "name": "@mid", "pattern": ["@top", "@other"], "inlined": [{"$and": ["push", {"xor": ["a", "a"]}]}, "ret"], "macros": chain + [OTHER], "where": where})
+        out.append({"id": f"defined/chain3/bottom_up/{where}", "feature": "ref_chain3", "expect": "equiv_or_error", "name": "@mid", "pattern": ["@top", "@other"], "inlined": [{"$and": ["push", {"xor": ["a", "a"]}]}, "ret"], "macros": [chain[2], chain[0], chain[1], OTHER], "where": where})
+        out.append({"id": f"undefined/chain3/typo_in_mid/{where}", "feature": "undef_chain3", "expect": "error", "name": "@mid", "pattern": ["@top", "@other"], "macros": [{"name": "@mid", "pattern": [{"xor": ["@lfea", "@lfea"]}]}, chain[1], chain[2], OTHER], "where": where})
     # other positions INSIDE a macro body: dict value ($deref field), dict key with a times body, operator child
     bodies = [
         ("body_dict_value", {"name": "@outer", "pattern": [{"mov": [{"$deref": {"main_reg": "@inner", "constant_offset": "0x8"}}, "b"]}]}, {"name": "@inner", "pattern": "%rax"}, ["push", {"mov": [{"$deref": {"main_reg": "%rax", "constant_offset": "0x8"}}, "b"]}, "ret"], "att_mem"),
